@@ -85,7 +85,18 @@ func runParseCase(l language.Language, content string) (res string) {
 			res = "PANIC"
 		}
 	}()
-	cs := cp.Parse([]byte(content), l)
+	// the text is handed over as a sub-slice of a larger buffer (a file header buf[:n], a reused read buffer):
+	// Parse must leave the caller's bytes alone, those beyond the slice included
+	buf := make([]byte, len(content), len(content)+8)
+	copy(buf, content)
+	tail := buf[len(content) : len(content)+8]
+	for i := range tail {
+		tail[i] = 'Z'
+	}
+	cs := cp.Parse(buf, l)
+	if string(buf) != content || string(tail) != "ZZZZZZZZ" {
+		return "WROTE-TO-CALLER-BUFFER"
+	}
 	sizes, flat := chunkSizes(cs)
 	same := len(flat) == len(cs)
 	for i := range flat {
